@@ -353,6 +353,8 @@ def _terminates(stmts) -> bool:
         return True
     if isinstance(last, ast.If):
         return _terminates(last.body) and _terminates(last.orelse)
+    if isinstance(last, ast.Try) and not last.finalbody and not last.orelse:
+        return _terminates(last.body) and all(_terminates(h.body) for h in last.handlers)
     return False
 
 
@@ -382,6 +384,14 @@ def _tail(stmts, assign) -> List[ast.stmt]:
                 new.body = [ast.Pass()]
             ast.copy_location(new, st)
             out.append(new)
+            return out
+        if isinstance(st, ast.Try) and not rest and not st.finalbody and not st.orelse and _contains_return(st):
+            # a try statement in tail position: `return X` inside the body / a handler becomes the assignment in the same place
+            new_try = ast.Try(body=_tail(st.body, assign) or [ast.Pass()], handlers=[], orelse=[], finalbody=[])
+            for h in st.handlers:
+                nh = ast.ExceptHandler(type=h.type, name=h.name, body=_tail(h.body, assign) or [ast.Pass()])
+                new_try.handlers.append(ast.copy_location(nh, h))
+            out.append(ast.copy_location(new_try, st))
             return out
         if not isinstance(st, ast.Return) and _contains_return(st):
             raise NotInlinable('a return inside a loop / try / with')
@@ -483,11 +493,13 @@ class Inliner:
                 if not any(n is node for n in ast.walk(caller_fn)):
                     return None
             elif m is not caller_mod:
-                return None
+                imp = caller_mod.imports.get(name) if hasattr(caller_mod, 'imports') else None
+                if not (imp and imp[0] == m.name and imp[1] == name):
+                    return None
         return defs[0]
 
     def check_callee(self, m, node, cls, caller_mod):
-        if node.decorator_list and not all(isinstance(d, ast.Name) and d.id == 'staticmethod' for d in node.decorator_list):
+        if node.decorator_list and not all(isinstance(d, ast.Name) and d.id in ('staticmethod', 'classmethod') for d in node.decorator_list):
             raise NotInlinable('decorated')
         if isinstance(node, ast.AsyncFunctionDef):
             raise NotInlinable('async')
@@ -522,7 +534,10 @@ class Inliner:
             raise NotInlinable('starred call')
         params = _params(node)
         is_static = any(isinstance(d, ast.Name) and d.id == 'staticmethod' for d in node.decorator_list)
+        is_classmethod = any(isinstance(d, ast.Name) and d.id == 'classmethod' for d in node.decorator_list)
         bound = cls is not None and not is_static
+        if is_classmethod and not (isinstance(call.func, ast.Attribute) and isinstance(call.func.value, ast.Name) and call.func.value.id in ('cls',)):
+            raise NotInlinable('classmethod called on something other than cls')
         args: Dict[str, ast.AST] = {}
         pos = list(call.args)
         names = list(params)
@@ -589,9 +604,48 @@ class Inliner:
             for s_, t_ in zip(shape, tgt_names):
                 if s_ == t_ and s_ in params and isinstance(args[s_], ast.Name) and args[s_].id == s_:
                     through.add(s_)
+        # names read by statements that can still run after this call: the rest of its statement list and of every enclosing list
+        later_loads = set()
+        in_loop = False
+        cur = stmt
+        guard = 0
+        while cur is not caller_fn and guard < 50:
+            guard += 1
+            holder = None
+            for n_ in ast.walk(caller_fn):
+                for field in ('body', 'orelse', 'finalbody'):
+                    lst_ = getattr(n_, field, None)
+                    if isinstance(lst_, list) and any(x is cur for x in lst_):
+                        holder = (n_, lst_)
+                if isinstance(n_, ast.Try):
+                    for h_ in n_.handlers:
+                        if any(x is cur for x in h_.body):
+                            holder = (n_, h_.body)
+            if holder is None:
+                in_loop = True          # not found: be conservative
+                break
+            n_, lst_ = holder
+            idx_ = next(i_ for i_, x in enumerate(lst_) if x is cur)
+            for later in lst_[idx_ + 1:]:
+                for y in ast.walk(later):
+                    if isinstance(y, ast.Name) and isinstance(y.ctx, ast.Load):
+                        later_loads.add(y.id)
+            if isinstance(n_, (ast.For, ast.While, ast.Try, ast.With)):
+                in_loop = in_loop or isinstance(n_, (ast.For, ast.While))
+                if isinstance(n_, ast.Try):
+                    for y in ast.walk(n_):
+                        if isinstance(y, ast.Name) and isinstance(y.ctx, ast.Load):
+                            later_loads.add(y.id)       # handlers / finally may read it
+            cur = n_
         for p in params:
             a = args[p]
             if p in through:
+                continue
+            if p in callee_stored and isinstance(a, ast.Name) and a.id not in later_loads and not in_loop and a.id in caller_locals and \
+                    sum(1 for q_ in params if isinstance(args[q_], ast.Name) and args[q_].id == a.id) == 1:
+                # the caller never looks at this variable again: the callee may go on using (and rebinding) it under the caller's name
+                if a.id != p:
+                    rename[p] = a.id
                 continue
             if p not in callee_stored and _pure_chain(a):
                 mapping[p] = a
@@ -631,7 +685,24 @@ class Inliner:
                 return []
             return [ast.Assign(targets=[t], value=v)]
 
-        if ctx == 'return':
+        if ctx == 'tail-expr':
+            # the value of the call is discarded: every `return X` of the callee ends the caller as well (X evaluated for its effects only)
+            class DropValue(ast.NodeTransformer):
+                def visit_FunctionDef(self, n):
+                    return n
+
+                def visit_Lambda(self, n):
+                    return n
+
+                def visit_Return(self, n):
+                    if n.value is None or isinstance(n.value, (ast.Constant, ast.Name)):
+                        return ast.copy_location(ast.Return(value=None), n)
+                    return [ast.copy_location(ast.Expr(value=n.value), n), ast.copy_location(ast.Return(value=None), n)]
+            new_body = []
+            for b_ in body:
+                r_ = DropValue().visit(b_)
+                new_body += r_ if isinstance(r_, list) else [r_]
+        elif ctx == 'return':
             new_body = body
             if not _terminates(new_body):
                 new_body = new_body + [ast.Return(value=ast.Constant(value=None))]
@@ -662,7 +733,7 @@ class Inliner:
     def process_function(self, mod, qual, fn) -> bool:
         changed = False
 
-        def do_list(lst):
+        def do_list(lst, tail=False):
             nonlocal changed
             i = 0
             while i < len(lst):
@@ -670,7 +741,8 @@ class Inliner:
                 repl = None
                 call = ctx = tgt = None
                 if isinstance(st, ast.Expr) and isinstance(st.value, ast.Call):
-                    call, ctx = st.value, 'expr'
+                    # in tail position of the caller (nothing runs after the statement) the callee's returns are the caller's returns
+                    call, ctx = st.value, ('tail-expr' if tail and i == len(lst) - 1 else 'expr')
                 elif isinstance(st, ast.Assign) and len(st.targets) == 1 and isinstance(st.value, ast.Call):
                     call, ctx, tgt = st.value, 'assign', st.targets[0]
                 elif isinstance(st, ast.Return) and isinstance(st.value, ast.Call):
@@ -710,13 +782,13 @@ class Inliner:
                 for field in ('body', 'orelse', 'finalbody'):
                     sub = getattr(st, field, None)
                     if isinstance(sub, list) and sub and isinstance(sub[0], ast.stmt) and not isinstance(st, SCOPES):
-                        do_list(sub)
+                        do_list(sub, tail and i == len(lst) - 1 and isinstance(st, ast.If))
                 if isinstance(st, ast.Try):
                     for h in st.handlers:
                         do_list(h.body)
                 i += 1
 
-        do_list(fn.body)
+        do_list(fn.body, True)
         if self._inline_expressions(mod, qual, fn):
             changed = True
         return changed
@@ -923,11 +995,69 @@ class Canon:
                 changed = True
         for _ in range(6):
             c = self._lists(fn)
+            c |= self._split_literal_sequences(fn)
             c |= self._eliminate_continue(fn)
             c |= self._propagate_aliases(fn)
             changed |= c
             if not c:
                 break
+        return changed
+
+    def _split_literal_sequences(self, fn) -> bool:
+        """`xs = (a, b)` (bound once, at most four items) whose only uses are `for x in xs: BODY` loops (BODY without break / continue,
+        x not rebound): the items get names of their own at the place of the binding (evaluation order kept) and each loop is
+        unrolled."""
+        uses, defs = self._use_def_counts(fn)
+        changed = False
+        for lst in Inliner._stmt_lists(fn):
+            for i, st in enumerate(lst):
+                if not (isinstance(st, ast.Assign) and len(st.targets) == 1 and isinstance(st.targets[0], ast.Name) and isinstance(st.value, (ast.Tuple, ast.List))
+                        and 1 <= len(st.value.elts) <= 4 and not any(isinstance(e, ast.Starred) for e in st.value.elts)):
+                    continue
+                xs = st.targets[0].id
+                if defs.get(xs, 0) != 1:
+                    continue
+                loops = [n for n in ast.walk(fn) if isinstance(n, ast.For) and isinstance(n.iter, ast.Name) and n.iter.id == xs]
+                if not loops or uses.get(xs, 0) != len(loops):
+                    continue
+                ok = True
+                for lp in loops:
+                    if not isinstance(lp.target, ast.Name) or lp.orelse:
+                        ok = False
+                    for b in lp.body:
+                        for n in ast.walk(b):
+                            if isinstance(n, (ast.Break, ast.Continue)):
+                                ok = False
+                            if isinstance(n, ast.Name) and isinstance(n.ctx, ast.Store) and isinstance(lp.target, ast.Name) and n.id == lp.target.id:
+                                ok = False
+                if not ok:
+                    continue
+                names = [f"{xs}__{k}" for k in range(len(st.value.elts))]
+                new_defs = [ast.fix_missing_locations(ast.copy_location(ast.Assign(targets=[ast.Name(id=nm, ctx=ast.Store())], value=e), st)) for nm, e in zip(names, st.value.elts)]
+                for lp in loops:
+                    unrolled = []
+                    for nm in names:
+                        for b in lp.body:
+                            bb = copy.deepcopy(b)
+
+                            class R(ast.NodeTransformer):
+                                def visit_Name(self, node, _v=lp.target.id, _nm=nm):
+                                    if node.id == _v and isinstance(node.ctx, ast.Load):
+                                        return ast.copy_location(ast.Name(id=_nm, ctx=ast.Load()), node)
+                                    return node
+                            unrolled.append(R().visit(bb))
+                    for holder in Inliner._stmt_lists(fn):
+                        for j, x in enumerate(holder):
+                            if x is lp:
+                                holder[j:j + 1] = unrolled
+                                break
+                for holder in Inliner._stmt_lists(fn):
+                    for j, x in enumerate(holder):
+                        if x is st:
+                            holder[j:j + 1] = new_defs
+                            break
+                self.counts['U'] = self.counts.get('U', 0) + 1
+                return True
         return changed
 
     def _eliminate_continue(self, fn) -> bool:
@@ -993,6 +1123,10 @@ class Canon:
             return e.attr not in stored_attrs and self._substitutable(e.value, stored_attrs, multi_def)
         if isinstance(e, ast.Call) and isinstance(e.func, ast.Name) and e.func.id in self.PURE_FUNCS and not e.keywords:
             return all(self._substitutable(a, stored_attrs, multi_def) for a in e.args)
+        # zero-argument accessors (`x.get_xsd_tree()`, `t.get_simple_content_extension()`): reading them again gives the same object
+        if isinstance(e, ast.Call) and isinstance(e.func, ast.Attribute) and e.func.attr.startswith('get_') and not e.args and not e.keywords \
+                and e.func.attr not in ('get_children', 'get_leaves', 'get_attached_elements', 'get_required_element_names'):
+            return self._substitutable(e.func.value, stored_attrs, multi_def)
         return False
 
     def _propagate_aliases(self, fn) -> bool:
@@ -1014,7 +1148,7 @@ class Canon:
                             ast.dump(lst[i - 1].targets[0]).replace('Store()', 'Load()') == ast.dump(st.value) and \
                             sum(1 for n in ast.walk(fn) if isinstance(n, ast.Attribute) and n.attr == st.value.attr and isinstance(n.ctx, (ast.Store, ast.Del))) == 1:
                         allowed = {st.value.attr}       # `obj.f = E` ; `x = obj.f` and obj.f is stored nowhere else: x is obj.f throughout
-                    if defs.get(x, 0) == 1 and uses.get(x, 0) >= 1 and not isinstance(st.value, (ast.Constant, ast.Name)) and \
+                    if defs.get(x, 0) == 1 and uses.get(x, 0) >= 1 and not isinstance(st.value, ast.Name) and \
                             self._substitutable(st.value, stored_attrs - allowed, multi_def) and \
                             not any(isinstance(n, ast.Name) and n.id == x for n in ast.walk(st.value)):
                         # the attribute the alias stands for may be stored by the very statement before (`self.f = E; x = self.f`): allowed when that
@@ -1303,6 +1437,56 @@ class _KwToPos(ast.NodeTransformer):
         return node
 
 
+def propagate_new_module_constants(sm, inv) -> Tuple[int, Set[str]]:
+    """A module-level name that is not in the reference inventory, bound exactly once to a literal (a new named constant such as
+    `_XML_FILE_ENCODING = 'utf-8'`), is replaced by the literal inside the functions of its module."""
+    known = inv.get('module_names', {})
+    n_sub = 0
+    changed = set()
+    for m in sm.modules.values():
+        if not m.name.startswith('musicxml'):
+            continue
+        ref = set(known.get(m.relpath, []))
+        binds: Dict[str, list] = {}
+        for st in m.tree.body:
+            tg = st.targets if isinstance(st, ast.Assign) else [st.target] if isinstance(st, ast.AnnAssign) and st.value is not None else []
+            for t in tg:
+                if isinstance(t, ast.Name):
+                    binds.setdefault(t.id, []).append(st.value)
+        consts = {k: v[0] for k, v in binds.items() if k not in ref and len(v) == 1 and isinstance(v[0], ast.Constant) and
+                  isinstance(v[0].value, (str, int, float, bool, type(None)))}
+        if not consts:
+            continue
+        rebound = {n.id for n in ast.walk(m.tree) if isinstance(n, ast.Name) and isinstance(n.ctx, ast.Store) and n.id in consts}
+        rebound_in_funcs = set()
+        for q, node, cls, parent in module_function_quals(m.tree):
+            for n in ast.walk(node):
+                if isinstance(n, (ast.Global, ast.Nonlocal)):
+                    rebound_in_funcs |= set(n.names)
+                if isinstance(n, ast.Name) and isinstance(n.ctx, ast.Store) and n.id in consts:
+                    rebound_in_funcs.add(n.id)
+                if isinstance(n, ast.arg) and n.arg in consts:
+                    rebound_in_funcs.add(n.arg)
+        usable = {k: v for k, v in consts.items() if k not in rebound_in_funcs}
+        if not usable:
+            continue
+
+        class R(ast.NodeTransformer):
+            def visit_Name(self, node):
+                nonlocal n_sub
+                if isinstance(node.ctx, ast.Load) and node.id in usable:
+                    n_sub += 1
+                    return ast.copy_location(ast.Constant(value=usable[node.id].value), node)
+                return node
+        for q, node, cls, parent in module_function_quals(m.tree):
+            if parent is None:
+                before = n_sub
+                R().visit(node)
+                if n_sub != before:
+                    changed.add(m.name)
+    return n_sub, changed
+
+
 def canonicalise(sm) -> dict:
     canon = Canon()
     changed = set()
@@ -1338,7 +1522,10 @@ def normalise(sm) -> dict:
     inl = Inliner(sm, inv)
     inl.changed_modules |= renamed_modules
     inl.run()
+    n_const, const_mods = propagate_new_module_constants(sm, inv)
+    inl.changed_modules |= const_mods
     can = canonicalise(sm) if os.environ.get('MXSA_NO_CANON') != '1' else {'rewrites': {}, 'changed_modules': []}
+    can['rewrites']['module_constants'] = n_const
     inl.changed_modules |= set(can['changed_modules'])
     new_funcs = sorted(f"{d[0].relpath}::{d[1]}" for ds in inl.new_defs.values() for d in ds)
     return {'enabled': True, 'functions_not_in_reference_inventory': new_funcs, 'inlined_calls': inl.log, 'calls_left_as_calls': inl.not_inlined,
